@@ -204,5 +204,6 @@ pub fn run(seed: u64, tier: &str, w: &mut dyn Write) -> usize {
         n += crate::kcfg::c04_keccak(&mut r, tier, w, &cfgs[*ci].1, k);
         if tier != "thorough" { break; }
     }
+    n += crate::c04s::run(&mut r, tier, w);
     n
 }
